@@ -395,6 +395,40 @@ def r13_log_folders_created(ctx):
                   "of periodicities aborts with FileNotFoundError at the first write", construct=f"folder {pth}")
 
 
+def r19_palette_sized_by_count(ctx):
+    """'Turning logging on never aborts the run': a table indexed by the running index of a loop over a configured count (patients to plot)
+    has to be as long as that count for every configuration.  A fixed palette (the `.colors` of a qualitative colormap, a literal list)
+    indexed by the bare loop index raises IndexError as soon as the configured count exceeds its length."""
+    ctx.rule("C11.R19", "in the fit-logging code a table indexed by a loop index is not a fixed-length palette (sized by a call taking the count, cycled, or indexed modulo its length)", 3)
+    n = 0
+    for f in ctx.ix.iter_funcs():
+        if f.mod != FOM:
+            continue
+        loopvars = set()
+        for l in ast.walk(f.node):
+            if isinstance(l, (ast.For, ast.comprehension)):
+                for t in ast.walk(l.target):
+                    if isinstance(t, ast.Name):
+                        loopvars.add(t.id)
+        defs = {}
+        for st in ast.walk(f.node):
+            if isinstance(st, ast.Assign) and len(st.targets) == 1 and isinstance(st.targets[0], ast.Name):
+                defs.setdefault(st.targets[0].id, []).append(st.value)
+        for sub in ast.walk(f.node):
+            if not (isinstance(sub, ast.Subscript) and isinstance(sub.value, ast.Name) and isinstance(sub.slice, ast.Name) and sub.slice.id in loopvars
+                    and isinstance(sub.ctx, ast.Load) and sub.value.id in defs):
+                continue
+            n += 1
+            fixed = [v for v in defs[sub.value.id]
+                     if isinstance(v, (ast.List, ast.Tuple)) or (isinstance(v, ast.Attribute) and v.attr in ("colors", "by_key"))
+                     or (isinstance(v, ast.Call) and U(v.func) in ("list", "tuple") and v.args and isinstance(v.args[0], ast.Attribute) and v.args[0].attr == "colors")]
+            ctx.check(not fixed, "C11.R19", f, sub, f"`{sub.value.id}` is computed (not a fixed-length palette) where it is indexed by the loop index `{sub.slice.id}`",
+                      f"`{U(sub)}`: `{sub.value.id}` is the fixed-length table `{U(fixed[0])[:60] if fixed else ''}` indexed by the bare loop index `{sub.slice.id}`: a configured count larger than the table "
+                      "raises IndexError in the logging call and aborts the fit", construct=f"{f.qual}: {U(sub)}")
+    if n < 3:
+        raise AnalysisError("C11.R19", f"only {n} loop-indexed table(s) found in the fit-logging code, 3 confirmed by hand (anchor vanished?)")
+
+
 def r10_no_bare_squeeze_in_logging(ctx):
     """'Turning logging on never aborts the run': the logging code plots / writes arrays whose shapes depend on the data (one visit, one
     feature, one source ...).  `x.squeeze()` without a dimension drops EVERY singleton axis, so an individual with a single visit or a
@@ -426,6 +460,7 @@ def rules(ctx):
     r16_seed_presence_not_truthiness(ctx)
     r7_deepcopy(ctx)
     r10_no_bare_squeeze_in_logging(ctx)
+    r19_palette_sized_by_count(ctx)
     r13_log_folders_created(ctx)
     # 'whatever was fitted earlier in the process': what a run leaves behind must not seed the next one. Same structural rules as
     # C13.R1 (a model never keeps the individual latent values / data of a run: the next run would start from them instead of from
@@ -474,6 +509,7 @@ VARIANTS = [
                 algorithm._initialize_seed(algorithm.seed)
             self.initialize(dataset)""", """        if not self.is_initialized:
             self.initialize(dataset)""", "C11.R3"),
+    V("fixed-palette", FM, 'colormaps["Dark2"](np.linspace(0, 1, number_of_patient_plot + 2))', 'colormaps["Dark2"].colors', "C11.R19"),
     V("logging-draws", FM, "    def print_time(self):\n", "    def print_time(self):\n        self._tick = torch.rand(())\n", "C11.R4"),
     V("logging-writes-state", FM, "        model.state.save(\n", "        model.state.put_individual_latent_variables(None)\n        model.state.save(\n", "C11.R4"),
     V("path-attrs-conditional", FM, "        self.path_output = None\n        self.path_plot = None\n", "", "C11.R5"),
